@@ -8,6 +8,30 @@ CHECKS = {
    technique="bounded exhaustive enumeration of (rule set, program) pairs against an independent reference assembler",
    text="All rule sets of 1..2 (thorough: 3) templates from a 27-template pool x every line the pool can produce (every range boundary, labels before/after, constants, undefined names, malformed lines), in one rule block and one block per rule, plus all item sequences up to a length over layout/label/data/instruction items (and a two-bank variant) are assembled by the real assembler and compared — success/failure, bits, every symbol value — with a reference assembler (character-level matcher with its own expression parser, layout, scoping) written from the documented rules.",
    note="Trusts the reference models refasm/refparse/refx (bound to the real code by agreeing on >300k programs; any disagreement is triaged). Programs outside the reference's defined domain (value-dependent sizes, blanks splitting adjacent literal characters, strings/blocks in arguments) get no verdict and are counted. Iteration budget 30."),
+ "C02": dict(level="model_checking", design="DESIGN.md §4 C02, §3.5",
+   technique="bounded exhaustive enumeration of value-dependent programs x budgets x switches; certificate re-derivation of every claimed fixed point by the reference model",
+   text="Seven rule families with value-dependent encodings x all item sequences up to a length x iteration budgets x the four optimisation-switch combinations, plus forward chains of length 0..12 (needing up to 14 passes) with and without an oscillator x budgets 1..30: every claimed success is certified by recomputing, from the assembler's own final symbol values and instruction sizes, each instruction's surviving matches, the unique smallest encoding, every data element and every label address; every failure must be clean. Nothing is predicted about which fixed point is found.",
+   note="Certificate uses the reference matcher/evaluator/layout (refasm) on the public result only (spans, bits, symbols output). States = distinct certified final states, transitions = passes executed (iterations_taken). Quick: sequences <=3, budgets {1,2,3,4,10}; thorough: <=4/5, budgets 1..30."),
+ "C06": dict(level="model_checking", design="DESIGN.md §4 C06, §3.4",
+   technique="bounded exhaustive enumeration of bank configurations x item sequences against a reference layout model plus invariants on the real spans",
+   text="All bank configurations of a structured grid (1..2 banks, thorough 3; address units 1/3/8/16 bits; sized/unbounded; fill; labelalign; second window adjacent / 1-bit gap / 1-unit gap / 1-bit overlap / before / without output; both definition orders) x all item sequences up to a length: the reference layout decides which programs must be rejected (an error is then required) and, on success, where every item must sit; the invariants no-overlap / inside-the-bank / gaps-zero / exact-length are evaluated on the real spans and bits.",
+   note="Only the direction illegal => rejected is demanded. Zero-size banks/items carry no verdict. The off-by-one in fill_banks found by this check was repaired (fix: e3416df)."),
+ "C10": dict(level="exploration", design="DESIGN.md §4 C10",
+   technique="exhaustive enumeration of job histories and thread placements in one process against fresh-process baselines; repetition over fresh processes for the hash-seed dimension (sampled, labelled)",
+   text="15 jobs built to collide on every conceivable cache key (same file names, mnemonics, symbol names, format strings; different rule bodies, constants, banks, includes, defines) and to have several equally-ranked diagnostics. All histories of <=3 (thorough <=4) jobs in one process, every job on main/fresh threads and every ordered pair on two concurrent threads must reproduce, byte for byte, the record (bits, 23 formatted outputs, written files, printed diagnostics) of the job alone in a fresh process; fresh-process repetition of the real binary samples the per-process hash seed.",
+   note="Histories and placements are exhaustive; the hash-seed and OS-schedule dimensions cannot be enumerated (RandomState cannot be seeded additively, the crate has no synchronisation points for a controlled scheduler) and are sampled and labelled so in the evidence. loom/shuttle do not apply (zero scheduling points)."),
+ "C11": dict(level="exploration", design="DESIGN.md §4 C11",
+   technique="exhaustive enumeration of output lengths/shapes; independent decoder per format compared with the assembled bits",
+   text="Every output length in the tier's range x 3 contents x 4 emission styles as a single block, multi-block outputs (gaps by #addr/#res, labels, zero-size spans, multi-record blocks) and multi-bank outputs are really assembled and formatted by driver::format_output in all 18 format specs; an independent decoder per format (Intel HEX records/checksums/EOF, MIF grammar, dump layout, C initialisers, Logisim raw, digit strings, separated lists) must recover exactly the assembled bits padded to the format's granule, with right addresses and counts.",
+   note="Line breaks, digit widths and record sizes are unconstrained (not part of decoding). Intel HEX blocks not starting on the address unit are Unspecified. Two defects found by this check were repaired (fix: 650966a, cf1bcbc)."),
+ "C12": dict(level="exploration", design="DESIGN.md §4 C12",
+   technique="exhaustive enumeration of programs x listing parameters; row parsers compared with real spans, bits and an independent layout",
+   text="All item sequences up to a length over instruction/label/constant/data/#res/#align/#addr/#bank items in three configurations (flat, bit-granular banks, output + non-output bank), also split into an included file and with non-ASCII comment lines, are assembled and listed in 55 listing formats (annotated 7 bases x 5 groups, tcgame, addrspan, symbols, mesen-mlb); parsed rows must name each emitted item once, in output order, with the right position, address, digits (= the bits at that position), source text/location; symbol tables must list exactly the non-suppressed symbols with their final values.",
+   note="Conventions without a golden file (column radix, addrspan origin, digit alphabets of bases 32..128) are calibrated once from a one-item program, so a consistent change of convention is not an alarm. Order among rows sharing an output position is not compared. Two defects found were repaired (fix: c8d8928, 5976eaf)."),
+ "C13": dict(level="exploration", design="DESIGN.md §4 C13",
+   technique="exhaustive enumeration of (valid program, fault kind, fault position, file layout, multi-byte decoration); location oracle computed independently from byte ranges",
+   text="Every valid base program up to a length x every fault kind x every fault line x one-file/included-file layouts x 14 decorations with 2/3/4-byte characters before, on and after the fault line: every located message (recursively) must name an input file and a byte range on character boundaries inside it; every printed '--> file:line:col' must equal the 1-based line and character column recomputed from the byte range; the first error must lie on the faulty line of the right file. Uses hook H1 (Report::verif_messages).",
+   note="The extent of ranges and nested notes are unconstrained; '#res' followed by content on the next line has no first-error verdict (the operand may legally continue there). The byte/char index defect found was repaired (fix: c8d8928)."),
  "C04": dict(level="model_checking", design="DESIGN.md §4 C04",
    technique="bounded exhaustive enumeration of (type, width, value, spelling) against a closed-form reference predicate",
    text="Every (type u/s/i, width 0..16, value in [-2^N-4, 2^N+4], six spellings) triple and every #dN case is assembled with the real assembler and compared with the property's own inequalities and the low-N-bits emission rule; widths 17..256 at every boundary. Complete enumeration of a finite space, so an off-by-one at any width/sign is hit.",
